@@ -15,6 +15,10 @@ CHECKS = {
  'C19': dict(engine='B+A', technique='symbolic execution of the real TimeLine IR with z3 (bit-vector integers, power-of-two scaling exact) for advance/constructor/restart; cbmc bit-precise for the end-time formula',
    text='One advance() from ANY valid state (inductive: covers every history of requests), the constructor establishing the invariant, the restart pair, each path obligation decided by z3; the physical end-time formula is decided bit-precisely by cbmc. Quick enumerates 16 of the 64 maximum-step exponents, thorough all 64.',
    note='Assumes conversion factor in the normal range (power-of-two scaling exact), request > 0 and finite. Known finding D7 (end time one rounding away from the requested end) is listed in known_findings.json and reported as KNOWN-FINDING.', ref='DESIGN.md section 5 C19'),
+
+ 'C13': dict(engine='B', technique='symbolic execution of the real RandomGenerator IR with z3 in an exact dyadic-integer domain (binary64 add/sub on multiples of 2^-48 is exact; side condition proved per operation)',
+   text='Every loop body of the RANLUX refill equals the reference subtract-with-borrow step from ANY valid state (inductive over all stream positions), the shipped 397-step refill tiles exactly, seeding is decided for every 64-bit seed argument (equals the reference shift-register initialisation, 0->1, only low 31 bits count), draws are in [0,1), restart restores all 17 words. All obligations are z3 verdicts over symbolic state; none is sampled.',
+   note='Reference recurrence transcribed in the harness (no copy of ranlxd.c offline): equality with the published stream is relative to it. A7 exactness lemma: each use discharges |n|<=2^53. Whole-run byte identity of snapshots is outside.', ref='DESIGN.md section 5 C13'),
 }
 NA = {
 }
